@@ -13,6 +13,7 @@ from penman.graph import Graph
 from penman.layout import Push, Pop, POP
 from penman.tree import Tree
 from penman.exceptions import LayoutError
+from pmon import canon
 
 from pmon.gen import graphs as G, trees as T, models as M
 from pmon.checks import _graphs
@@ -67,8 +68,21 @@ def expected(g, top):
 
 def check_list(ctx, g, top, payload, n=None):
     exp = expected(g, top)
+    snap = canon.canon(g) if ctx.evaluations % 4 == 0 else None
     ok, res = ctx.call(penman.encode, g, top=top, indent=None, allowed=(LayoutError,),
                        clause='encode(arbitrary)', n=n)
+    if snap is not None:
+        # whether it succeeded or failed, the call leaves the graph as it was, and asking again
+        # gives the same answer (no partial state survives a refusal)
+        if canon.canon(g) != snap:
+            ctx.fail('encode:graph-changed', mech='after-error' if not ok else 'after-success',
+                     detail={'triples': g.triples, 'top': top}, payload=payload)
+        ok2, res2 = ctx.call(penman.encode, g, top=top, indent=None, allowed=(LayoutError,),
+                             clause='encode(arbitrary, again)')
+        if ok2 != ok or (ok and res2 != res) or (not ok and type(res2) is not type(res)):
+            ctx.fail('encode:second-call-differs', detail={'triples': g.triples, 'top': top,
+                                                           'first': repr(res)[:200], 'second': repr(res2)[:200]},
+                     payload=payload)
     if ok:
         got = 'ok'
     elif isinstance(res, LayoutError):
